@@ -12,6 +12,6 @@ d = json.loads([l for l in sys.stdin if l.startswith('{')][-1])
 print('$L: untranslatable', [u for u in d['untranslatable'] if u['file'].startswith('T2')], 'differs_from_baseline', [f for f in d['differs_from_baseline'] if f.startswith('T2')])"
 cd /tmp/t2coq
 Q="-q -Q /verif/coq/model RichModel -Q gen RichGen -Q proofs RichProofs -w -notation-overridden"
-for f in gen/T2_Ratio gen/T2_Cells gen/T2_Measure gen/T2_Span proofs/bridge/BridgeLib proofs/bridge/BridgeRatio proofs/bridge/BridgeCells proofs/bridge/BridgeMeasure proofs/bridge/BridgeSpan; do
+for f in gen/T2_Ratio gen/T2_Cells gen/T2_Measure gen/T2_Span gen/T2_Color gen/T2_Live gen/T2_Segment gen/T2_Progress gen/T2_Style gen/T2_Bar gen/T2_ProgressBar proofs/bridge/BridgeLib proofs/bridge/BridgeRatio proofs/bridge/BridgeCells proofs/bridge/BridgeMeasure proofs/bridge/BridgeSpan proofs/bridge/BridgeColor proofs/bridge/BridgeLive proofs/bridge/BridgeSegment proofs/bridge/BridgeProgress proofs/bridge/BridgeStyle proofs/bridge/BridgeBar proofs/bridge/BridgeProgressBar; do
   if timeout 120 coqc $Q $f.v > /tmp/t2self.log 2>&1; then echo "$L: $f ok"; else echo "$L: $f BROKEN: $(grep -A3 '^File' /tmp/t2self.log | head -4 | tr '\n' ' ' | cut -c1-260)"; fi
 done
